@@ -8,7 +8,8 @@
 //!   "pause_first":bool, "late_connect":bool, "race_conns":N, "stop_after_done":bool, "faults_first":N, "stall_after_stop_ms":N, "plain_tokio":bool, "system_exit":bool, "stop_gap_ms":N, "busy_ms":N,
 //!   "call_busy":{"c":k,"ms":N}, "stop_in_call_ms":N}
 //! accept_delay_ms (solo scenarios only): while set, the accept thread is held that long whenever it logs "resume accepting
-//!   connections" (tracing subscriber); resume_then_stop: resume() and stop() are issued back to back
+//!   connections" (tracing subscriber); resume_then_stop: resume() and stop() are issued back to back; pause_then_stop: with
+//!   resume_then_stop, a pause() 80 ms after the resume, directly in front of the stop (two interests behind one wake-up)
 //! busy_ms: every connection handler blocks its worker thread for N ms right after it started (no yield)
 //! stop_gap_ms: the server thread is held for N ms between telling the accept thread to stop and sending Stop to the
 //! workers (hook `stop_gap`): the schedule "accept thread exits before the workers hear about the stop".
@@ -324,6 +325,13 @@ pub fn run_scenario(sc: &Value) -> Vec<Value> {
     if sc["resume_then_stop"].as_bool().unwrap_or(false) {
         let _ = handle.resume();
         log.emit(json!({"e": "ResumeCalled"}));
+        // "pause_then_stop": once the accept thread is held inside the resume (accept_delay_ms), a pause is issued right in
+        // front of the stop: both interests are pushed while the thread is busy, their wake-ups coalesce into ONE event
+        if sc["pause_then_stop"].as_bool().unwrap_or(false) {
+            thread::sleep(Duration::from_millis(80));
+            let _ = handle.pause();
+            log.emit(json!({"e": "PauseCalled"}));
+        }
     }
     // "race_conns": N more clients connect right before the stop and nobody waits for them to be served (stop racing new
     // connections): each of them is either never started or - under a graceful stop - allowed to finish
